@@ -52,6 +52,9 @@ type ampRouter struct {
 	// rewriteToServer may replace a client datagram by one crafted at the router (same source address);
 	// a crafted datagram is delivered and counted with its true size and never validates the address
 	rewriteToServer func(idx int, types []protocol.PacketType, data []byte, odcid []byte) (crafted []byte, what string)
+	// injectBefore: datagrams the router sends to the server (from the client's address) just before client datagram idx
+	injectBefore func(idx int, odcid []byte) (crafted [][]byte, what []string)
+	violationKey string // key used for bound violations in this scenario (default ampconn/bound)
 	odcid                []byte
 	trace                []string
 	wire                 []string // Coq terms (WRecv n validates | WSend n)
@@ -78,6 +81,17 @@ func (r *ampRouter) SendPacket(p simnet.Packet) error {
 		types, short, tokLen, dcid := quic.VerifC14DatagramInfo(p.Data)
 		if r.odcid == nil && dcid != nil {
 			r.odcid = dcid
+		}
+		if r.injectBefore != nil && r.odcid != nil {
+			pkts, what := r.injectBefore(idx, r.odcid)
+			for j, d := range pkts {
+				r.delivered += int64(len(d))
+				r.wire = append(r.wire, u.App("WRecv", u.Z(int64(len(d))), u.B(r.validated)))
+				r.trace = append(r.trace, fmt.Sprintf("%v C>S(injected) %dB %s (delivered=%d validated=%v)", now, len(d), what[j], r.delivered, r.validated))
+				r.mu.Unlock()
+				_ = r.PerfectRouter.SendPacket(simnet.Packet{From: p.From, To: p.To, Data: d})
+				r.mu.Lock()
+			}
 		}
 		desc := ampTypes(types, short)
 		crafted := false
@@ -120,7 +134,11 @@ func (r *ampRouter) SendPacket(p simnet.Packet) error {
 				r.closed = true
 			}
 		}
-		r.wire = append(r.wire, u.App("WSend", u.Z(n)))
+		if isClose || isRetry {
+			r.wire = append(r.wire, u.App("WSendU", u.Z(n))) // not gated by SendMode
+		} else {
+			r.wire = append(r.wire, u.App("WSend", u.Z(n)))
+		}
 		r.trace = append(r.trace, fmt.Sprintf("%v S>C#%d %dB %s (sent=%d)", now, idx, n, desc, r.sent))
 		if !r.validated {
 			r.nUnvalidated++
@@ -128,8 +146,19 @@ func (r *ampRouter) SendPacket(p simnet.Packet) error {
 				r.atLimit = true
 			}
 		}
+		if !r.validated && !isClose && !isRetry && r.sent-n >= 3*r.delivered && r.sent-n > 0 {
+			// a datagram packed after a SendMode check must start strictly under the limit (SendMode is SendNone AT the limit)
+			key := "ampconn/bound"
+			if r.violationKey != "" {
+				key = r.violationKey
+			}
+			r.viol = append(r.viol, ampViolation{key, fmt.Sprintf("unvalidated: a %d-byte datagram (%s) was started with %d bytes sent >= 3*%d delivered", n, desc, r.sent-n, r.delivered), len(r.trace)})
+		}
 		if !r.validated && r.sent > 3*r.delivered+n {
 			key := "ampconn/bound"
+			if r.violationKey != "" {
+				key = r.violationKey
+			}
 			if isClose {
 				key = "ampconn/close-ungated"
 			} else if isRetry {
@@ -201,10 +230,11 @@ const (
 	ampListenerCloses
 	ampRetry
 	ampCoalescedJunk
+	ampReplayJunk
 	ampNKinds
 )
 
-var ampKindNames = []string{"plain", "client-blackholed-after-k", "lossy", "server-app-closes-early", "listener-closes-early", "retry", "coalesced-junk"}
+var ampKindNames = []string{"plain", "client-blackholed-after-k", "lossy", "server-app-closes-early", "listener-closes-early", "retry", "coalesced-junk", "replay-junk"}
 
 func runAmpConn(w *bufio.Writer, seed uint64, n int, _ []string) {
 	r := u.NewRng(seed)
@@ -234,6 +264,9 @@ func ampConnScenario(w *bufio.Writer, r *u.Rng, idx, kind int, dist map[string]i
 	clientPktSize := int(r.Pick(1200, 1200, 1252, 1280, 1350))
 	if kind == ampCoalescedJunk && extra < 9000 {
 		extra += 9000 // plenty to send
+	}
+	if kind == ampReplayJunk {
+		extra = 22000 // a flight between 3x and 6x of what will have arrived
 	}
 	human := fmt.Sprintf("kind=%s cert-extra=%d latency=%v client-initial-packet-size=%d blackhole-after=%d loss=%d%% close-delay=%v", ampKindNames[kind], extra, latency, clientPktSize, blackholeAfter, lossPct, closeDelay)
 	dist["scenarios"]++
@@ -300,6 +333,32 @@ func ampConnScenario(w *bufio.Writer, r *u.Rng, idx, kind int, dist map[string]i
 				return append(append([]byte{}, data...), tail...), fmt.Sprintf("%dB original+%s", len(data)+len(tail), ampPartsString(parts))
 			}
 			return nil, ""
+		}
+	}
+	if kind == ampReplayJunk {
+		// Between the client's first Initial (a part of the ClientHello) and its second one, datagrams full of
+		// Handshake-/0-RTT-looking packets arrive: the server has no keys for them yet and buffers them; the second
+		// Initial completes the ClientHello, the read keys appear and the buffered packets are handled again.
+		// Their bytes must be credited once (when the datagrams arrived), not again on the replay.
+		router.violationKey = "ampconn/replay-credited-again"
+		nJunk := int(r.Pick(1, 1, 2))
+		junkRng := r.Fork()
+		router.injectBefore = func(i int, odcid []byte) ([][]byte, []string) {
+			if i != 1 {
+				return nil, nil
+			}
+			var ds [][]byte
+			var ws []string
+			for j := 0; j < nJunk; j++ {
+				k := int(junkRng.Pick(1, 2, 8))
+				parts := make([]quic.VerifC14Part, k)
+				for x := range parts {
+					parts[x] = quic.VerifC14Part{Type: int(junkRng.Pick(2, 2, 1)), Size: 1200 / k}
+				}
+				ds = append(ds, quic.VerifC14CoalescedDatagram(odcid, parts, junkRng.Bytes))
+				ws = append(ws, ampPartsString(parts))
+			}
+			return ds, ws
 		}
 	}
 	cert := ampCert(r, extra)
